@@ -5,7 +5,11 @@ ASSUME ndJsonSerialize("scen_F1.ndjson", SetToSeq(F1))
 ASSUME ndJsonSerialize("scen_F2.ndjson", SetToSeq(F2))
 ASSUME ndJsonSerialize("scen_F3.ndjson", SetToSeq(F3))
 ASSUME ndJsonSerialize("scen_Multi.ndjson", SetToSeq(Multi))
-ASSUME PrintT(<<"SCENARIOS", Cardinality(F1), Cardinality(F2), Cardinality(F3), Cardinality(Multi)>>)
+ASSUME ndJsonSerialize("scen_F4.ndjson", SetToSeq(F4))
+ASSUME ndJsonSerialize("scen_F5.ndjson", SetToSeq(F5))
+ASSUME ndJsonSerialize("scen_F6.ndjson", SetToSeq(F6))
+ASSUME ndJsonSerialize("scen_Probe.ndjson", <<Probe>>)
+ASSUME PrintT(<<"SCENARIOS", Cardinality(F1), Cardinality(F2), Cardinality(F3), Cardinality(Multi), Cardinality(F4), Cardinality(F5), Cardinality(F6)>>)
 GInit == InitWith([c \in Conns |-> CHOOSE s \in Multi : TRUE])
 GNext == UNCHANGED vars
 =============================================================================
